@@ -258,6 +258,7 @@ func modelDump(p *Pool) string {
 				xs = append(xs, entRef(p, r.Entity()))
 			}
 			addRef("Ra", e.H, xs)
+			refs["Ak"] = append(refs["Ak"], fmt.Sprintf("Ak%d:%s", e.H, attrKind(e.Attr)))
 		case KBuilder:
 			addRef("Rc", e.H, idsOf(p, e.Bld.VerifRefs()))
 		case KBus:
@@ -279,12 +280,53 @@ func modelDump(p *Pool) string {
 			out += "|" + x
 		}
 	}
-	for _, tag := range []string{"Rt", "Ru", "Re", "Ra", "As", "Rc", "Bb"} {
+	for _, tag := range []string{"Rt", "Ru", "Re", "Ra", "As", "Rc", "Bb", "Ak"} {
 		for _, x := range refs[tag] {
 			out += "|" + x
 		}
 	}
 	return out
+}
+
+// attrKind: kind and range of an attribute definition as the model has it (floats in thousandths,
+// strings by code)
+func attrKind(at acme.Attribute) string {
+	milli := func(x float64) int64 {
+		if x < 0 {
+			return int64(x*1000 - 0.5)
+		}
+		return int64(x*1000 + 0.5)
+	}
+	switch at.Type() {
+	case acme.AttributeTypeInteger:
+		ia, _ := at.ToInteger()
+		return fmt.Sprintf("i,%d,%d", ia.Min(), ia.Max())
+	case acme.AttributeTypeFloat:
+		fa, _ := at.ToFloat()
+		return fmt.Sprintf("f,%d,%d", milli(fa.Min()), milli(fa.Max()))
+	case acme.AttributeTypeEnum:
+		ea, _ := at.ToEnum()
+		var xs []string
+		for _, v := range ea.Values() {
+			xs = append(xs, strconv.FormatInt(attrCode(v), 10))
+		}
+		return "e," + strings.Join(xs, "+")
+	}
+	return "s"
+}
+
+func attrCode(s string) int64 {
+	switch s {
+	case "a":
+		return 5
+	case "zz":
+		return 6
+	case "b":
+		return 7
+	}
+	var n int64
+	fmt.Sscanf(s, "s%d", &n)
+	return n
 }
 
 func itemHandle(s string) int {
